@@ -10,6 +10,8 @@ CONSTANTS S,           \* coordinate unit (48: halves down to 1/16 and thirds ar
           WT,          \* the weight "one"
           Metrics,     \* subset of {"cub", "tet", "ort", "hex"}
           TVq, TSq,    \* thresholds in eighths of the largest starting volume / squared edge (9 = nothing to split)
+          EvenThresholds, \* FALSE: thresholds never equal an attained value (odd numerators); TRUE: they do (even numerators)
+          BreakOnEqual,   \* FALSE: the loops as written (`break` only if max < threshold); TRUE: `break` if max <= threshold
           KeepWeight   \* FALSE: the code; TRUE: children inherit the full weight (sensitivity self-test)
 VARIABLES metric, tv2, ts2, phase, kl, hist, nround
 vars == <<metric, tv2, ts2, phase, kl, hist, nround>>
@@ -19,7 +21,10 @@ StartList(m) == StartListOf(m, S, WT)
 CellVol6(m)  == CellVol6Of(m, S)
 MaxVol6(l)   == Max({Vol6(l[i].v) : i \in 1..Len(l)})
 MaxSize2(l, g) == Max({Size2(l[i].v, g) : i \in 1..Len(l)})
-Odd(x) == 2 * x + 1
+Odd(x) == IF EvenThresholds THEN 2 * x ELSE 2 * x + 1
+(* loop exit tests of split_tetra_volume / split_tetra_size *)
+VolExit == IF BreakOnEqual THEN \A i \in 1..Len(kl) : 2 * Vol6(kl[i].v) <= tv2 ELSE VolumeDone(kl, tv2)
+SizExit == IF BreakOnEqual THEN \A i \in 1..Len(kl) : 2 * Size2(kl[i].v, Gram(metric)) <= ts2 ELSE SizeDone(kl, ts2, Gram(metric))
 
 Init == /\ metric \in Metrics
         /\ tv2 \in {Odd((MaxVol6(StartList(metric)) * q) \div 8) : q \in TVq}
@@ -33,16 +38,16 @@ RoundV(l, i, mode, T2) == IF i > Len(l) THEN <<>>
 HistOf(l, mode, T2) == LET big == SelectSeq(l, LAMBDA t : TooBig(t, mode, T2, Gram(metric)))
                        IN [i \in 1..Len(big) |-> [p |-> big[i], ch |-> SplitV(big[i])]]
 (* while True: if max(volumes) < vmax: break; split every tetrahedron with v > vmax *)
-VolRound == /\ phase = "volume" /\ ~VolumeDone(kl, tv2)
+VolRound == /\ phase = "volume" /\ ~VolExit
             /\ kl' = RoundV(kl, 1, "volume", tv2) /\ hist' = HistOf(kl, "volume", tv2) /\ nround' = nround + 1
             /\ UNCHANGED <<metric, tv2, ts2, phase>>
-VolEnd   == /\ phase = "volume" /\ VolumeDone(kl, tv2) /\ phase' = "size" /\ hist' = <<>>
+VolEnd   == /\ phase = "volume" /\ VolExit /\ phase' = "size" /\ hist' = <<>>
             /\ UNCHANGED <<metric, tv2, ts2, kl, nround>>
 (* while True: if size_max < dkmax: break; split every tetrahedron with size > dkmax *)
-SizRound == /\ phase = "size" /\ ~SizeDone(kl, ts2, Gram(metric))
+SizRound == /\ phase = "size" /\ ~SizExit
             /\ kl' = RoundV(kl, 1, "size", ts2) /\ hist' = HistOf(kl, "size", ts2) /\ nround' = nround + 1
             /\ UNCHANGED <<metric, tv2, ts2, phase>>
-SizEnd   == /\ phase = "size" /\ SizeDone(kl, ts2, Gram(metric)) /\ phase' = "done" /\ hist' = <<>>
+SizEnd   == /\ phase = "size" /\ SizExit /\ phase' = "done" /\ hist' = <<>>
             /\ UNCHANGED <<metric, tv2, ts2, kl, nround>>
 Next == VolRound \/ VolEnd \/ SizRound \/ SizEnd
 Spec == Init /\ [][Next]_vars /\ WF_vars(Next)
@@ -61,8 +66,11 @@ WeightKept    == SumSeq(TFacs(kl)) = WT
 WeightByVolume == WeightPropVolume(kl, WT)
 Tiling        == IF metric = "hex" THEN NoOverlap(kl, Smp, M) ELSE TilesCell(kl, Smp, M)
 SplitsOK      == \A h \in 1..Len(hist) : SplitOK(hist[h].p, hist[h].ch, Smp, M)
-ThresholdsMet == phase = "done" => (VolumeDone(kl, tv2) /\ SizeDone(kl, ts2, Gram(metric)))
+ThresholdsMet == phase = "done" => (\A i \in 1..Len(kl) : 2 * Vol6(kl[i].v) <= tv2 /\ 2 * Size2(kl[i].v, Gram(metric)) <= ts2)
+(* an iteration that is entered splits at least one tetrahedron: otherwise the list never changes and the loop never ends *)
+NoStall       == /\ (phase = "volume" /\ ~VolExit) => \E i \in 1..Len(kl) : TooBig(kl[i], "volume", tv2, Gram(metric))
+                 /\ (phase = "size" /\ ~SizExit) => \E i \in 1..Len(kl) : TooBig(kl[i], "size", ts2, Gram(metric))
 (* the state machine ends in the list computed by the recursive definition of the two loops *)
-EqualsLoops   == (phase = "done" /\ ~KeepWeight) => kl = GridTetraList(StartList(metric), tv2, ts2, Gram(metric))
+EqualsLoops   == (phase = "done" /\ ~KeepWeight /\ ~EvenThresholds) => kl = GridTetraList(StartList(metric), tv2, ts2, Gram(metric))
 Termination   == <>(phase = "done")
 =============================================================================
